@@ -106,6 +106,11 @@ def required(tier):
             "post:Preprocessor.inverse_transform_components",
             "post:Preprocessor.inverse_transform_scores",
             "conservation:decoded",
+            "relayout:transposed",
+            "relayout_accepted:transposed",
+            "relayout:feature_reversed",
+            "history:transform_subset",
+            "history:model_transform_subset",
         ],
         "cover": cover,
     }
@@ -470,10 +475,43 @@ def _conservation(obs, rec, b, op):
     obs.check(f"{op}:cols_distinct", len(set(fid[0, :].tolist())) == A.shape[1], "two columns carry the same feature label", tags=dict(tg, symptom="column_duplicated"))
 
 
-def _same_matrix(obs, M, M2, b, sn, fn, scale):
-    tg = {"op": "transform"}
+def _relayout(X, b, how):
+    """the same labelled data in another physical layout; None when the layout offers nothing to change"""
+    import xarray as xr
+
+    items = X if b["is_list"] else [X]
+    out, changed = [], False
+    for it, o in zip(b["ref"], items):
+        if how == "transposed":
+            # Dataset items keep their layout: their transposed transform is a recorded finding of C04
+            if isinstance(o, xr.DataArray) and o.ndim > 1:
+                o = o.transpose(*o.dims[::-1])
+                changed = True
+        else:
+            fd = next((d for v in it["vars"] for d in v["fdims"]), None)
+            if fd is not None and o.sizes[fd] > 1:
+                o = o.isel({fd: slice(None, None, -1)})
+                changed = True
+        out.append(o)
+    if not changed:
+        return None
+    return out if b["is_list"] else out[0]
+
+
+def _sample_subset(X, b):
+    """the first half (by the first item's labels) of the first sample dimension, selected by label in every item"""
+    items = X if b["is_list"] else [X]
+    d = b["sample_dim_set"][0]
+    idx0 = items[0].indexes[d]
+    chosen = idx0[: max(1, len(idx0) // 2)]
+    out = [o.isel({d: np.sort(o.indexes[d].get_indexer(chosen))}) for o in items]
+    return out if b["is_list"] else out[0]
+
+
+def _same_matrix(obs, M, M2, b, sn, fn, scale, op="transform"):
+    tg = {"op": op}
     ok = obs.check(
-        "transform:matrix_dims",
+        f"{op}:matrix_dims",
         hasattr(M2, "dims") and set(M2.dims) == {sn, fn} and set(M.dims) == {sn, fn} and dict(M2.sizes) == dict(M.sizes),
         f"transform() gives {dict(getattr(M2, 'sizes', {}))}, fit_transform() gave {dict(getattr(M, 'sizes', {}))}",
         tags=dict(tg, symptom="matrix_shape"),
@@ -486,7 +524,7 @@ def _same_matrix(obs, M, M2, b, sn, fn, scale):
     if b["ids"] and not np.array_equal(A, B):
         i = tuple(np.argwhere(A != B)[0])
         msg = f"transform() puts cell id {B[i]:.0f} where fit_transform() put id {A[i]:.0f} (row {i[0]}, column {i[1]})"
-    obs.close("transform:same_matrix", B, A, TOL_RT, scale=scale, tags=dict(tg, symptom="transform_matrix_differs"), msg=msg)
+    obs.close(f"{op}:same_matrix", B, A, TOL_RT, scale=scale, tags=dict(tg, symptom="transform_matrix_differs"), msg=msg)
 
 
 def _compare_data(obs, op, out, b, tol, scale):
@@ -557,7 +595,7 @@ def run_case(case, obs):
     with warnings.catch_warnings():
         warnings.simplefilter("ignore")
         # ---------------- part 1: preprocessor round trip -----------------------------------------------
-        obs.tag(cls="Preprocessor")
+        obs.tag(cls="Preprocessor", history="none")
         del _REC[:]
         pre = Preprocessor(sample_name=sn, feature_name=fn, **b["kw"])
         tag_rd = lambda: obs.tag(renamed_differ=_renamed_differ(pre))  # noqa: E731
@@ -576,6 +614,41 @@ def run_case(case, obs):
             ok, M2 = _guard(obs, "transform", lambda: pre.transform(X), refusable)
             if ok:
                 _same_matrix(obs, M, M2, b, sn, fn, scale)
+            # third execution: the SAME labelled data handed over in another physical layout.  (a) DataArray items
+            # with their axes in reverse order ("dimensions in any order"): must build the same matrix; (b) the
+            # element order along the first feature dimension reversed: xeofs refuses that today -- it may be
+            # refused or aligned by label, but never accepted with the values in the columns of other labels.
+            for how in ("transposed", "feature_reversed"):
+                Xr = _relayout(X, b, how)
+                if Xr is None:
+                    continue
+                _cnt("relayout:" + how)
+                if how == "feature_reversed":
+                    try:
+                        ok, M3 = True, pre.transform(Xr)
+                    except Exception as e:  # noqa: BLE001
+                        if exception_site(e, REPO) is None:
+                            raise
+                        ok, M3 = False, None
+                        _cnt("relayout_refused:" + how)
+                else:
+                    ok, M3 = _guard(obs, "transform_" + how, lambda Xr=Xr: pre.transform(Xr), refusable)
+                if ok:
+                    _cnt("relayout_accepted:" + how)
+                    _same_matrix(obs, M, M3, b, sn, fn, scale, op="transform_" + how)
+            # hostile history: projecting OTHER samples (a label-subset of the training data) must not change what
+            # the fitted chain restores for the training matrix
+            Xs = _sample_subset(X, b)
+            try:
+                pre.transform(Xs)
+                _cnt("history:transform_subset")
+            except Exception:  # noqa: BLE001  (a subset may be unusable for reasons of its own)
+                _cnt("history:transform_subset_raised")
+            obs.tag(history="after_transform_of_subset")
+            ok, back = _guard(obs, "inverse_transform_data", lambda: pre.inverse_transform_data(M), refusable)
+            if ok:
+                _compare_data(obs, "inverse_transform_data", back, b, TOL_RT, scale)
+            obs.tag(history="none")
 
         # ---------------- part 2: EOF on the same layout ------------------------------------------------
         obs.tag(cls="EOF")
@@ -597,6 +670,14 @@ def run_case(case, obs):
             tag_rd()
             for rec in list(_REC):
                 _conservation(obs, rec, b, "fit")
+            if case["dseed"] % 2 == 0:
+                # hostile history: project other samples before the fitted model's accessors are read
+                try:
+                    model.transform(_sample_subset(X, b))
+                    _cnt("history:model_transform_subset")
+                    obs.tag(history="after_transform_of_subset")
+                except Exception:  # noqa: BLE001
+                    _cnt("history:model_transform_subset_raised")
             _eof_outputs(obs, model, b, n, scale, refusable)
     _drain(obs)
     if obs.info.get("refusals"):
